@@ -757,7 +757,7 @@ class SymMixin:
 
     # ------------------------------------------------------------------ attributes / methods of symbols
     PROPS = {"datetime": {"microsecond": ("int", dict(lo=0, hi=999999)), "second": ("int", dict(lo=0, hi=59)),
-                          "tzinfo": ("any", {}), "year": ("int", {}), "month": ("int", {}), "day": ("int", {})},
+                          "tzinfo": ("any", dict(maybe_none=True)), "year": ("int", {}), "month": ("int", {}), "day": ("int", {})},
              "timedelta": {"days": ("int", {}), "seconds": ("int", dict(lo=0, hi=86399)),
                            "microseconds": ("int", dict(lo=0, hi=999999))},
              "uuid": {"bytes": ("bytes", dict(len=16)), "int": ("int", dict(lo=0))},
